@@ -53,5 +53,7 @@ package certloader
 //@   requires len(blob) >= 1
 //@
 //@ func parsePGP
-//@   property C11
+//@   property C11 C07
 //@   nopanic
+//@   ensures @every_entity_present forall(i, 0, len(ret0), ret0[i] != nil)
+//@   modifies nothing
